@@ -123,7 +123,10 @@ def main():
                      (dict(mode='C', has_o=False, kinds='CC', in_is_dir=1), 'input that cannot be read (a directory)'),
                      (dict(mode='S', has_o=False, kinds='C', in_is_dir=0), 'input that cannot be read (a directory), -S'),
                      (dict(mode='S', has_o=True, kinds='C', out_path='/dev/full'), 'output that cannot be written (/dev/full), -S'),
-                     (dict(mode='E', has_o=True, kinds='C', out_path='/dev/full'), 'output that cannot be written (/dev/full), -E')]:
+                     (dict(mode='E', has_o=True, kinds='C', out_path='/dev/full'), 'output that cannot be written (/dev/full), -E'),
+                     (dict(mode='E', has_o=False, kinds='C', stdout_full=1), 'standard output that cannot be written, -E of a few bytes'),
+                     (dict(mode='E', has_o=True, kinds='C', out_path='-', stdout_full=1), 'standard output that cannot be written, -E -o -'),
+                     (dict(mode='S', has_o=True, kinds='C', out_path='-', stdout_full=1), 'standard output that cannot be written, -S -o -')]:
         rc, out, err = sh(['unshare', '-m', 'python3', os.path.join(VERIF, 'tools/c14_scenario.py'), src, json.dumps(sc)], timeout=120); evals += 1
         try: obs = json.loads(out.strip().split('\n')[-1])
         except Exception: run.corr_broken.append('scenario runner failed: ' + (out + err)[-200:]); continue
